@@ -22,11 +22,14 @@ NAMES = ["chr1", "chr11", "chr2", "chrX"]
 def _genome(G, with_ignored=False):
     import bionumpy as bnp
     sizes = {NAMES[i]: int(n) for i, n in enumerate(G)}
-    if with_ignored:
+    if with_ignored is True:
         # a contig the genome lists but filters out (as Genome.from_file does with names holding '_'): nothing may depend on it
         from bionumpy.genomic_data.genome_context import ignore_underscores
         sizes = dict(list(sizes.items())[:1] + [("chr1_alt", 3)] + list(sizes.items())[1:])
         return bnp.Genome.from_dict(sizes, filter_function=ignore_underscores)
+    if with_ignored == "sorted":
+        # the same contigs listed in the opposite order, the genome asked to sort the names (sizes of different contigs differ)
+        return bnp.Genome(dict(reversed(list(sizes.items()))), sort_names=True)
     return bnp.Genome.from_dict(sizes)
 
 
@@ -71,6 +74,9 @@ def check_vector(v):
     if hash(json.dumps([v["G"], v["bg"]])) % 3 == 0:
         r2 = _check(v, True)
         r = {"n": r["n"] + r2["n"], "nt": r["nt"], "bad": r["bad"] + r2["bad"]}
+    elif hash(json.dumps([v["G"], v["bg"]])) % 3 == 1 and len(v["G"]) > 1:
+        r2 = _check(v, "sorted")
+        r = {"n": r["n"] + r2["n"], "nt": r["nt"], "bad": r["bad"] + r2["bad"]}
     return r
 
 
@@ -88,7 +94,7 @@ def _check(v, with_ignored):
     st = np.array([r["s"] for r in bg], dtype=int)
     en = np.array([r["e"] for r in bg], dtype=int)
     vals = np.array([r["v"] for r in bg], dtype=int)
-    tags = {"op": tree[0], "depth": _depth(tree), "empty": not bg, "ignored_contig_listed": with_ignored}
+    tags = {"op": tree[0], "depth": _depth(tree), "empty": not bg, "ignored_contig_listed": with_ignored is True, "sort_names": with_ignored == "sorted"}
 
     def dense(x):
         d = x.to_dict()
